@@ -43,6 +43,7 @@ import (
 	"time"
 	"unsafe"
 
+	"github.com/c2h5oh/datasize"
 	"github.com/spf13/afero"
 	"github.com/yandex/pandora/core"
 	"github.com/yandex/pandora/core/aggregator"
@@ -51,6 +52,7 @@ import (
 	"github.com/yandex/pandora/core/schedule"
 	"github.com/yandex/pandora/lib/monitoring"
 	"go.uber.org/zap"
+	"go.uber.org/zap/zapcore"
 
 	"verifharness/internal/vt"
 )
@@ -289,6 +291,10 @@ func (c *runCapture) Run(ctx context.Context, deps core.AggregatorDeps) error {
 	return err
 }
 
+// buffer-size option bounds (coreutil.BufferSizeConfig): 0 = default (512 KiB), below 4 KiB = raised to the
+// minimum, 4 KiB (spills after ~60 lines), 100 KB
+func (cfg aggRun) bufSize() int { return []int{4096, 0, 1, 100000, 4096}[cfg.run%5] }
+
 func buildAggregator(cfg aggRun, w *vt.Writer) (core.Aggregator, func() (int, int)) {
 	sink := &lineSink{run: cfg.run, w: w}
 	switch cfg.kind {
@@ -301,7 +307,7 @@ func buildAggregator(cfg aggRun, w *vt.Writer) (core.Aggregator, func() (int, in
 		conf.ID = cfg.ids
 		conf.SampleQueueSize = cfg.q
 		conf.FlushTime = time.Duration(cfg.flushMs) * time.Millisecond
-		conf.Buffer.BufferSize = 4096
+		conf.Buffer.BufferSize = datasize.ByteSize(cfg.bufSize())
 		a, err := netsample.NewPhout(fs, conf)
 		if err != nil {
 			panic(err)
@@ -315,20 +321,65 @@ func buildAggregator(cfg aggRun, w *vt.Writer) (core.Aggregator, func() (int, in
 			return n, len(b) - (bytes.LastIndexByte(b, '\n') + 1)
 		}
 		return netsample.WrapAggregator(a), content
+	case "log":
+		// every sample is written through to the logger at Info level: the logger is the sink
+		return aggregator.NewLog(), nil
+	case "discard":
+		return aggregator.NewDiscard(), nil
 	case "jsonlines":
 		sink.parse = parseJSONLine
 		conf := aggregator.DefaultJSONLinesAggregatorConfig()
 		conf.Sink = bufSink{sink}
 		conf.FlushInterval = time.Duration(cfg.flushMs) * time.Millisecond
+		if cfg.run%7 == 0 {
+			conf.FlushInterval = 0 // option bound: no periodic flush at all, only the final one
+		}
 		conf.ReporterConfig.SampleQueueSize = cfg.q
-		conf.JSONLineEncoderConfig.BufferSizeConfig.BufferSize = 4096
+		conf.JSONLineEncoderConfig.BufferSizeConfig.BufferSize = datasize.ByteSize(cfg.bufSize())
 		return aggregator.NewJSONLinesAggregator(conf), nil
 	}
 	panic("kind")
 }
 
+// tokSample: the sample type reported to the log / discard aggregators.  It prints as "S<g>-<i>" and is a
+// core.BorrowedSample: Return() must be called exactly once by an aggregator that does not keep it.
+type tokSample struct {
+	G, I     int
+	returned *int64
+}
+
+func (t *tokSample) String() string { return fmt.Sprintf("S%d-%d", t.G, t.I) }
+func (t *tokSample) Return()        { atomic.AddInt64(t.returned, 1) }
+
+var tokReturned sync.Map // run -> *int64
+
+func tokCounter(run int) *int64 {
+	c, _ := tokReturned.LoadOrStore(run, new(int64))
+	return c.(*int64)
+}
+
+// logCore is a zapcore.Core that records every entry the log aggregator writes.
+type logCore struct {
+	run int
+	w   *vt.Writer
+}
+
+func (c logCore) Enabled(zapcore.Level) bool        { return true }
+func (c logCore) With([]zapcore.Field) zapcore.Core { return c }
+func (c logCore) Check(e zapcore.Entry, ce *zapcore.CheckedEntry) *zapcore.CheckedEntry {
+	return ce.AddCore(e, c)
+}
+func (c logCore) Write(e zapcore.Entry, _ []zapcore.Field) error {
+	c.w.Emit(map[string]interface{}{"ev": "LogLine", "run": c.run, "msg": e.Message, "level": e.Level.String()})
+	return nil
+}
+func (c logCore) Sync() error { return nil }
+
 func (cfg aggRun) sample(r *rand.Rand, g, i int) (absSample, core.Sample) {
 	a := genSample(r, g, i)
+	if cfg.kind == "log" || cfg.kind == "discard" {
+		return a, &tokSample{G: g, I: i, returned: tokCounter(cfg.run)}
+	}
 	if cfg.kind == "phout" {
 		return a, realSample(a)
 	}
@@ -363,7 +414,11 @@ func runDirect(cfg aggRun, w *vt.Writer, seed int64) {
 	ctx, cancel := context.WithCancel(context.Background())
 	defer cancel()
 	done := make(chan error, 1)
-	startRun := func() { go func() { done <- a.Run(ctx, core.AggregatorDeps{Log: zap.NewNop()}) }() }
+	logger := zap.NewNop()
+	if cfg.kind == "log" {
+		logger = zap.New(logCore{cfg.run, w})
+	}
+	startRun := func() { go func() { done <- a.Run(ctx, core.AggregatorDeps{Log: logger}) }() }
 	// mode "late": Run starts only after every report was made and the context was cancelled
 	// (core.Aggregator: "Report MAY be called before Aggregator Run"): everything is still queued
 	// when Run sees ctx.Done().  Other modes: Run is started first.
@@ -420,7 +475,15 @@ func runDirect(cfg aggRun, w *vt.Writer, seed int64) {
 	}
 	ready.Wait()
 	close(gate)
-	wg.Wait()
+	reported := make(chan struct{})
+	go func() { wg.Wait(); close(reported) }()
+	select {
+	case <-reported:
+	case <-time.After(60 * time.Second):
+		// only possible when Report blocks although it must not (discard; log / phout with room in the queue)
+		w.Emit(map[string]interface{}{"ev": "ReportBlocked", "run": cfg.run})
+		return
+	}
 	if cfg.delayUs > 0 && cfg.mode != "late" {
 		time.Sleep(time.Duration(cfg.delayUs) * time.Microsecond)
 	}
@@ -438,6 +501,9 @@ func runDirect(cfg aggRun, w *vt.Writer, seed int64) {
 	if content != nil {
 		n, partial := content()
 		w.Emit(map[string]interface{}{"ev": "Content", "run": cfg.run, "lines": n, "partial": partial})
+	}
+	if cfg.kind == "discard" {
+		w.Emit(map[string]interface{}{"ev": "Returned", "run": cfg.run, "n": vt.Small(atomic.LoadInt64(tokCounter(cfg.run)))})
 	}
 }
 
@@ -632,6 +698,7 @@ func aggMain(args []string) {
 	cancelRuns := fs.Int("cancel", 20, "engine runs cancelled from outside at a seeded instant")
 	stressRuns := fs.Int("dropstress", 4, "jsonlines runs with thousands of concurrent drops")
 	provRuns := fs.Int("provfail", 0, "engine runs whose provider fails mid-run")
+	otherRuns := fs.Int("other", 0, "direct runs of the log and discard aggregators")
 	par := fs.Int("par", 4, "runs in flight")
 	fs.Parse(args)
 	seed := aggSeed()
@@ -643,9 +710,12 @@ func aggMain(args []string) {
 	qs := []int{1, 1, 2, 3, 4, 8, 16, 64}
 	flushes := []int{1, 1, 2, 5, 20, 100, 1000}
 	var cfgs []aggRun
-	for n := 0; n < *runs+*engRuns+*cancelRuns+*stressRuns+*provRuns; n++ {
+	for n := 0; n < *runs+*engRuns+*cancelRuns+*stressRuns+*provRuns+*otherRuns; n++ {
 		cfg := aggRun{run: n + 1, via: "direct"}
-		if n >= *runs+*engRuns+*cancelRuns+*stressRuns {
+		other := n >= *runs+*engRuns+*cancelRuns+*stressRuns+*provRuns
+		if other {
+			cfg.via = "direct"
+		} else if n >= *runs+*engRuns+*cancelRuns+*stressRuns {
 			cfg.via = "provfail"
 		} else if n >= *runs+*engRuns+*cancelRuns {
 			cfg.via = "direct"
@@ -705,11 +775,30 @@ func aggMain(args []string) {
 				}
 			}
 		}
-		if n >= *runs+*engRuns+*cancelRuns && cfg.via == "direct" {
+		if n >= *runs+*engRuns+*cancelRuns && cfg.via == "direct" && !other {
 			cfg.mode, cfg.kind, cfg.k, cfg.q = "dropstress", "jsonlines", 8, 1+r.Intn(2)
 			cfg.per = nil
 			for g := 0; g < cfg.k; g++ {
 				cfg.per = append(cfg.per, 3000+r.Intn(2000))
+			}
+		}
+		if other {
+			// log: blocking queue of 128, written through to the logger; discard: nothing at all.
+			// late mode = every report is made before Run starts: discard must not block, log has room for 128
+			cfg.kind = []string{"log", "discard"}[n%2]
+			cfg.mode = []string{"normal", "late", "burst"}[r.Intn(3)]
+			cfg.q = 128
+			room := 128
+			for g := range cfg.per {
+				if cfg.mode == "burst" {
+					cfg.per[g] = 10 + r.Intn(20)
+				}
+				if cfg.kind == "log" && cfg.mode == "late" {
+					if cfg.per[g] > room {
+						cfg.per[g] = room
+					}
+					room -= cfg.per[g]
+				}
 			}
 		}
 		if cfg.via == "engine" {
